@@ -101,6 +101,13 @@ Proof.
     split; [apply repeat_length | intros i Hi; discriminate].
 Qed.
 
+Lemma accept_WF skip m a : WFm m -> WFm (fst (accept_peer_with skip m a)).
+Proof.
+  intros HW. unfold accept_peer_with. destruct (MAX_NOT_INTERESTED <=? _); [exact HW|].
+  destruct (skip && _); cbn [fst]; [exact HW|].
+  apply WF_with_peer; [exact HW|]. split; [apply repeat_length | intros i Hi; discriminate].
+Qed.
+
 Theorem WF_step m c pick m' rep bc sp : WFm m -> valid_pick m pick ->
   mstep m c pick = Ok (m', rep, bc, sp) -> WFm m'.
 Proof.
